@@ -77,9 +77,12 @@ def render(rng, ab):
         if t == "buf" and rng.random() < 0.5:
             name = "buff"
         # white space on either side of every comma, chosen per comma
-        args = ops[0] + "".join(sp(0.25) + "," + sp(0.7) + o for o in ops[1:])
-        lines_g.append(f"{g}{sp(0.8)}={sp(0.8)}{kw(name)}({sp(0.2)}{args}{sp(0.2)})")
-    lines_d = [f"{q}{sp(0.8)}={sp(0.8)}{kw('DFF')}({sp(0.2)}{d}{sp(0.2)})" for q, d in ab["dffs"]]
+        def after_comma():
+            # an operand list may continue on the next line
+            return rng.choice(("\n", "\n    ", "\n\t")) if rng.random() < 0.06 else sp(0.7)
+        args = ops[0] + "".join(sp(0.25) + "," + after_comma() + o for o in ops[1:])
+        lines_g.append(f"{g}{sp(0.8)}={sp(0.8)}{kw(name)}{sp(0.15)}({sp(0.2)}{args}{sp(0.2)})")
+    lines_d = [f"{q}{sp(0.8)}={sp(0.8)}{kw('DFF')}{sp(0.15)}({sp(0.2)}{d}{sp(0.2)})" for q, d in ab["dffs"]]
     mode = rng.choice(("canonical", "outputs_first", "shuffled", "shuffled"))
     if mode == "canonical":
         lines = lines_in + [""] + lines_out + [""] + lines_g + lines_d
@@ -92,7 +95,10 @@ def render(rng, ab):
             lines.insert(rng.randrange(len(lines) + 1), "")
     head = ["# generated bench"] if rng.random() < 0.6 else []
     text = "\n".join(head + lines) + ("\n" if rng.random() < 0.7 else "")
-    return text, {"lower_all": lower_all, "mode": mode}
+    crlf = rng.random() < 0.1
+    if crlf:
+        text = text.replace("\n", "\r\n")     # a file written on another platform
+    return text, {"lower_all": lower_all, "mode": mode, "crlf": crlf}
 
 
 def gen(rng, tier):
